@@ -1,13 +1,12 @@
 """C20 - sbeppc's exit status is truthful under I/O failures and its output
 deterministic.
 
-Proved (Lean, `Sbepp.Properties.C20`, about `Sbepp.Gen.Files.run`): without a
-hit `write` call exit 0 implies every file complete; exit 1 + diagnostic iff a
-mkdir/open failed; a re-run truncates and rewrites; the output is a function of
-the plan; the sources contain no time/random/address source and iterate only
-string-keyed hash containers.  Refuted with witnesses: exit 0 although a
-`write` failed or was cut short (`fs_provider::write_file` never looks at the
-stream after `<<`).
+Proved (Lean, `Sbepp.Properties.C20`, about `Sbepp.Gen.Files.run`, for EVERY
+fault schedule): exit 0 implies every file complete; exit 1 + diagnostic iff
+some mkdir/open/write/close returned an error (a short count that the retry
+completes is not one); a re-run truncates and rewrites; the output is a
+function of the plan; the sources contain no time/random/address source and
+iterate only string-keyed hash containers.
 
 Observed (this file): the real sbeppc under an LD_PRELOAD shim
 (`harness/iofault.c`) that fails / shortens the k-th mkdir / fopen / write /
@@ -32,19 +31,17 @@ from .. import schema as S
 
 MODULE = 'Sbepp.Properties.C20'
 THEOREMS = [
-    'Sbepp.Properties.C20.exit0_all_files_complete_false',
-    'Sbepp.Properties.C20.exit0_all_files_complete_partial',
-    'Sbepp.Properties.C20.fault_gives_diag_false',
-    'Sbepp.Properties.C20.fault_gives_diag_partial',
+    'Sbepp.Properties.C20.exit0_all_files_complete',
+    'Sbepp.Properties.C20.fault_gives_diag',
     'Sbepp.Properties.C20.rerun_idempotent',
     'Sbepp.Properties.C20.output_function_of_schema',
     'Sbepp.Properties.C20.no_nondeterminism_sources',
     'Sbepp.Properties.C20.hash_iterations_string_keyed',
-    # witnesses of the refutations / of each fault class of the model (replayed below on the real sbeppc)
-    'Sbepp.Properties.C20.witness_first_write_fails',
-    'Sbepp.Properties.C20.witness_short_write',
+    # one concrete instance per fault class of the model (every class is run on the real sbeppc below)
+    'Sbepp.Properties.C20.first_write_fails',
+    'Sbepp.Properties.C20.short_write_then_full_disk',
     'Sbepp.Properties.C20.short_write_is_retried',
-    'Sbepp.Properties.C20.witness_close_fails',
+    'Sbepp.Properties.C20.close_fails',
 ]
 
 FAMILIES = ['mkdir', 'open', 'write', 'close', 'fsync']
@@ -142,12 +139,12 @@ def has_diag(out):
 def model_prediction(family, mode):
     """`Sbepp.Gen.Files.run plan (single family k mode) disk` for a k that is
     reached: (exit status, every planned file complete?)  -- mirrors the Lean
-    model (witness theorems in Sbepp.Properties.C20 instantiate every row)"""
-    if family in ('mkdir', 'open'):
-        return 1, False
-    if family == 'write':
-        return (0, True) if mode == 'short' else (0, False)
-    return 0, True      # close, fsync: ignored by the destructor
+    model (the instance theorems in Sbepp.Properties.C20 cover every row)"""
+    if family == 'write' and mode == 'short':
+        return 0, True      # libstdc++ retries the rest
+    if family == 'fsync':
+        return 0, True      # never called
+    return 1, False         # mkdir, open, write fail/shortfail, close: throw_error
 
 
 # --------------------------------------------------------------------- schemas
@@ -415,7 +412,7 @@ def run(chk):
         if wrong_model and not chk.violations:
             chk.report_unproved('impl≠model (implementation agrees with the specification)',
                                 {'first': wrong_model[0], 'count': len(wrong_model),
-                                 'hint': 'Sbepp.Gen.Files no longer describes fs_provider (was write_file fixed?)'})
+                                 'hint': 'Sbepp.Gen.Files no longer describes fs_provider'})
         other_mismatch = [m for m in ctx.model_mismatch if not m['impl_ok_by_spec']]
         chk.cov['evaluations'] = ctx.runs
         chk.cov['programs'] = len(per_schema)
